@@ -89,6 +89,13 @@ struct Judge<'a> {
     handoffs: usize,
     handoff_sampled_with_descendants: bool,
     handoff_unsampled_nonroot_with_descendants: bool,
+    result_span_sampled: bool,
+    result_span_unsampled: bool,
+    result_span_under_unsampled_header: bool,
+    complete_with_sampled: bool,
+    complete_with_unsampled: bool,
+    /// somewhere above (not necessarily innermost) a pushed / received header established the trace
+    in_header_scope_any: bool,
     // planned panics
     /// a planned panic is travelling up through the program being walked
     unwinding: bool,
@@ -286,6 +293,23 @@ impl<'a> Judge<'a> {
             a.sampled()
         };
 
+        if n.form.is_result() {
+            if sampled {
+                self.result_span_sampled = true
+            } else {
+                self.result_span_unsampled = true;
+                if self.in_header_scope_any {
+                    self.result_span_under_unsampled_header = true;
+                }
+            }
+        }
+        if n.form.is_complete_with() {
+            if sampled {
+                self.complete_with_sampled = true
+            } else {
+                self.complete_with_unsampled = true
+            }
+        }
         if n.form.is_handoff() {
             self.handoffs += 1;
             let descendants = count_spans(&n.items) > 0;
@@ -434,9 +458,9 @@ impl<'a> Judge<'a> {
                 if self.unwinding {
                     let what = match n.form {
                         // everything that goes through `Frame::call` (the attribute on a sync fn, `in_fn`, …)
-                        Form::SyncFn | Form::ManualCall | Form::GuardSync | Form::HandoffCall | Form::HandoffInFn => UnwoundScope::SyncCall,
                         Form::ManualEnter | Form::HandoffEnterBack => UnwoundScope::EnterGuard,
-                        Form::AsyncFn | Form::ManualFuture | Form::GuardAsync | Form::HandoffFuture => UnwoundScope::Async,
+                        f if f.is_async() => UnwoundScope::Async,
+                        _ => UnwoundScope::SyncCall,
                     };
                     self.unwound_through(what, inner.sampled());
                     if !n.form.is_handoff() {
@@ -507,9 +531,12 @@ impl<'a> Judge<'a> {
                 // "keeps the parent only within the same trace"
                 let inner = Active { tp: Some(tp), parent: if same_trace { cur.span } else { None }, parent_open: false, unknown: false };
                 let saved = std::mem::replace(&mut self.in_header_scope, true);
+                let saved_any = self.in_header_scope_any;
+                self.in_header_scope_any = saved_any || tp.valid();
                 self.check(*pre, inner, cx, "inside pushed header")?;
                 self.items(items, inner, cx)?;
                 self.in_header_scope = saved;
+                self.in_header_scope_any = saved_any;
                 if self.unwinding {
                     self.unwound_through(if *in_async { UnwoundScope::IncomingFrameAsync } else { UnwoundScope::IncomingFrame }, tp.sampled());
                     return Ok(());
@@ -535,9 +562,11 @@ impl<'a> Judge<'a> {
                 self.downstream_spans += count_spans(items);
                 let saved = std::mem::replace(&mut self.in_header_scope, true);
                 let saved_after = std::mem::replace(&mut self.after_panic, false);
+                let saved_any = std::mem::replace(&mut self.in_header_scope_any, inner.tp.is_some());
                 self.check(*pre, inner, cx, "next service, inside received header")?;
                 self.items(items, inner, cx)?;
                 self.in_header_scope = saved;
+                self.in_header_scope_any = saved_any;
                 if self.unwinding {
                     // the request handler panicked: the server thread catches it, the received header's
                     // `push().call(..)` frame was unwound through
@@ -665,6 +694,12 @@ pub fn judge(case: &Case, prog: &Prog, recs: &[Rec], log: &[L], cx: &mut Cx) -> 
         handoffs: 0,
         handoff_sampled_with_descendants: false,
         handoff_unsampled_nonroot_with_descendants: false,
+        result_span_sampled: false,
+        result_span_unsampled: false,
+        result_span_under_unsampled_header: false,
+        complete_with_sampled: false,
+        complete_with_unsampled: false,
+        in_header_scope_any: false,
         unwinding: false,
         unwound_scopes: 0,
         after_panic: false,
@@ -771,6 +806,11 @@ pub fn judge(case: &Case, prog: &Prog, recs: &[Rec], log: &[L], cx: &mut Cx) -> 
     cx.class_if(!j.hop_entry.is_empty(), "thread-hop-carried");
     cx.class_if(j.frame_current_hop_with_spans, "frame-current-hop-with-spans");
     cx.class_if(migrated_polls > 0, "async-join-polls-migrate-threads");
+    cx.class_if(j.result_span_unsampled, "form:result-span-in-unsampled-trace");
+    cx.class_if(j.result_span_under_unsampled_header, "form:result-span-continuing-unsampled-header");
+    cx.class_if(j.result_span_sampled, "form:result-span-in-sampled-trace");
+    cx.class_if(j.complete_with_unsampled, "form:complete_with-in-unsampled-trace");
+    cx.class_if(j.complete_with_sampled, "form:complete_with-in-sampled-trace");
     cx.class_if(j.exit_panic_sync_call, "exit:panic-sync-call");
     cx.class_if(j.exit_panic_enter_guard, "exit:panic-enter-guard");
     cx.class_if(j.exit_panic_async, "exit:panic-async");
